@@ -171,9 +171,21 @@ func main() {
 		}
 	}
 	start := time.Now()
-	scratch, err := os.MkdirTemp("/tmp", "rosim-"+id+"-")
-	if err != nil {
-		die2("mktemp: %v", err)
+	// development aid: VERIF_REUSE=<dir> keeps (and reuses) a built scratch directory
+	if reuse := os.Getenv("VERIF_REUSE"); reuse != "" {
+		noBuild = fileExists(filepath.Join(reuse, "worker.test")) && os.Getenv("VERIF_REBUILD") == ""
+		os.MkdirAll(reuse, 0o755)
+		os.Exit(run(id, cfg, tier, seed, replay, reuse, start))
+	}
+	// a fixed scratch path per property lets the Go build cache reuse the instrumented packages
+	// between runs; fall back to a unique one when it is taken (concurrent run or stale leftovers)
+	scratch := "/tmp/rosim-" + id
+	if err := os.Mkdir(scratch, 0o755); err != nil {
+		var err2 error
+		scratch, err2 = os.MkdirTemp("/tmp", "rosim-"+id+"-")
+		if err2 != nil {
+			die2("mktemp: %v", err2)
+		}
 	}
 	defer os.RemoveAll(scratch)
 	code := run(id, cfg, tier, seed, replay, scratch, start)
@@ -181,7 +193,14 @@ func main() {
 	os.Exit(code)
 }
 
+var noBuild bool
+
+func fileExists(p string) bool { _, err := os.Stat(p); return err == nil }
+
 func build(scratch string, race bool) {
+	if noBuild {
+		return
+	}
 	a := []string{scratch}
 	if race {
 		a = append(a, "race")
